@@ -381,7 +381,7 @@ def helper_cases():
     for rank in (1, 2, 3):
         for predk in ("none", "atom", "range"):
             for lock in ("atoms", "affine", "divmod"):
-                if rank > 1 and lock != "atoms" and predk != "none":
+                if lock != "atoms" and predk != "none" and (rank > 1 or (lock, predk) == ("divmod", "range")):
                     continue
 
                 def case(answers, rank=rank, predk=predk, lock=lock):
@@ -503,13 +503,15 @@ def run_div(res, record, tmo):
         want = q if op == "/" else lz % c
         # uniqueness: the constraint forces the temporary to be the floor quotient
         r, m, dt = check_unsat(pre + A + [z != q], tmo)
+        uniq = r == z3.unsat
         record(T_DIV, f"{op} by {how}: the asserted constraint forces the temporary to be floor(l / c)", _st(r), dt,
                what=f"{op} lowering: constraint admits a value other than the floor quotient")
         # totality: the floor quotient satisfies it (so assuming it excludes no input)
         r, m, dt = check_unsat(pre + [z == q, z3.Not(z3.And(*A))], tmo)
         record(T_DIV, f"{op} by {how}: the floor quotient satisfies the asserted constraint (nothing is excluded)",
                _st(r), dt, what=f"{op} lowering: constraint excludes the floor quotient")
-        r, m, dt = check_unsat(pre + A + [tz != want], tmo)
+        # (uses the fact just proved, z == floor(l / c), as a lemma: non-linear when c is symbolic)
+        r, m, dt = check_unsat(pre + A + ([z == q] if uniq else []) + [tz != want], tmo)
         record(T_DIV, f"{op} by {how}: the returned term is the floor {'quotient' if op == '/' else 'remainder'}",
                _st(r), dt, what=f"{op} lowering: returned term differs from the floor result")
     # refused divisors
